@@ -97,6 +97,13 @@ inductive EndX where
   | done (o : Outcome)
   deriving Repr, DecidableEq, Inhabited
 
+/-- ORDER OF `-h` AND A REFUSED GRAPH ARGUMENT.  The model examines the graph arguments after parsing (`GraphEnv`); argparse
+runs the action of a graph argument as soon as it has its tokens, so a graph argument IN FRONT of `-h` that is refused
+ends the real run in a CLIError before `-h` is read.  `argRefused`: an action refused its tokens during the real parse. -/
+def EndX.observed (argRefused : Bool) : EndX → EndX
+  | .help => if argRefused then .done .cliError else .help
+  | e => e
+
 /-- the helper's method on the bindings `b` of the parser.  A single-argument option that holds the empty list
 (`hasQuirk`: CPython 3.12.1's removal of a lone `--`) makes a guard, an argument or the generator's own check raise
 TypeError / ValueError, which `cli()` reports as a CLIError. -/
